@@ -192,9 +192,9 @@ def oracle(stores, cases, impl):
 
             def sbad(sig, what):
                 fails.append(dict(name="%s-%s" % (sig, cid), case=dict(case=c, impl=out[:2000], expected=[x.hex() for x in exp][:200]), what=what))
-            if "NONTERM" in out:
+            if out.startswith("NONTERM"):
                 sbad("srv-nonterm", "live server: the iteration does not reach the empty cursor")
-            elif " err" in out:
+            elif out.startswith("err"):
                 sbad("srv-error", "live server: a scan call failed")
             elif got != exp:
                 if len(got) != len(set(got)):
